@@ -364,6 +364,11 @@ impl<'a, 'ast> Visit<'ast> for ReturnRule<'a> {
         }
         syn::visit::visit_expr_closure(self, c);
     }
+    fn visit_expr_return(&mut self, r: &'ast syn::ExprReturn) {
+        // `return f(..)`: the returned expression is the last thing this handler does
+        if let Some(e) = &r.expr { tail_of_expr(self.src, e, &mut self.out); }
+        syn::visit::visit_expr_return(self, r);
+    }
     fn visit_item(&mut self, _: &'ast syn::Item) {}
 }
 fn tail_spans(src: &Src, b: &syn::Block) -> Value {
